@@ -70,7 +70,7 @@ def streamImplMachine {σ : Type} (D : CoreDesc σ) (w : Nat) : Machine (Pool (W
         match fromHex x, fromHex g with
         | some b, some gb => if b.length ≠ gb.length then (p, "err " ++ toHex gb) else doApply b gb
         | _, _ => (p, bad)
-      | ["seek", t, n] =>
+      | "seek" :: t :: n :: _hint =>
         match snMax t, n.toNat? with
         | some mx, some v =>
           if v > mx ∨ D.K.cw = 0 then (p, bad)
@@ -165,12 +165,16 @@ def streamSpecMachine {σ : Type} (D : CoreDesc σ) : Machine (Pool Nat) where
         match fromHex x, fromHex g with
         | some b, some gb => if b.length ≠ gb.length then (p, "err " ++ toHex gb) else doApply b gb
         | _, _ => (p, bad)
-      | ["seek", t, n] =>
+      | "seek" :: t :: n :: hint =>
         match snMax t, n.toNat?, D.limit with
         | some mx, some v, some lim =>
           if v > mx ∨ D.K.cw = 0 then (p, bad)
           else if v ≤ lim * bs then (p.set v, "ok")
-          else (p.set v, "?")                                   -- beyond the keystream: not specified by C10
+          else if v / bs ≥ 2 ^ D.K.cw then (p, "err")           -- not representable in the counter type
+          else
+            -- beyond the keystream end: C10 does not say whether the seek succeeds; if it did (the harness
+            -- passes what it observed) the position is `v`, from which no byte may be produced (C11)
+            (if hint == ["hint=ok"] then p.set v else p, "?")
         | _, _, _ => (p, bad)
       | ["pos", t] =>
         match snMax t with
@@ -203,7 +207,8 @@ def coreSpecMachine {σ : Type} (D : CoreDesc σ) : Machine (Pool (Nat × Nat)) 
       let st := p.get (0, 0)
       let blk := st.1 + st.2
       let bs := D.K.bs
-      let adv (k : Nat) : Pool (Nat × Nat) := p.set (st.1, st.2 + k)
+      -- the core's block counter is a `cw`-bit integer and wraps (the core itself has no exhaustion check)
+      let adv (k : Nat) : Pool (Nat × Nat) := p.set (st.1, if D.K.cw = 0 then st.2 + k else (st.2 + k) % 2 ^ D.K.cw)
       let ksN (n : Nat) : Bytes := ((List.range n).map fun i => D.ks (blk + i)).flatten
       match toks with
       | ["ksblock"] => (adv 1, "out " ++ toHex (D.ks blk))
